@@ -192,7 +192,7 @@ pub fn worker_abs(w: &mut WorkerCtx) {
     }
     std::env::remove_var("U");
     let cwds = [s("/"), sbr.clone(), format!("{}/a/b", sbr)];
-    let maxlen = w.tier.pick(6, 7);
+    let maxlen = w.tier.pick(6, 8);
     let n = count_upto(ALPHA.len() as u64, maxlen);
     let toks = token_strings();
     let mem = Memfs::new();
@@ -489,7 +489,7 @@ pub fn run(ctx: &Ctx) -> i32 {
         ("spelling_pairs_memfs", J::i(g.c("spelling_pairs"))),
         ("spelling_pairs_stdfs", J::i(g.c("spelling_pairs_stdfs"))),
         ("exhaustive", J::Bool(true)),
-        ("bounds", J::s(format!("strings to length {}; cwds /, <SB>, <SB>/a/b; HOME/V settings {:?}", ctx.tier.pick(6, 7), combos))),
+        ("bounds", J::s(format!("strings to length {}; cwds /, <SB>, <SB>/a/b; HOME/V settings {:?}", ctx.tier.pick(6, 8), combos))),
     ]);
     finish(ctx, Evidence {
         level: "exploration",
